@@ -825,6 +825,10 @@ def mechanism(case, node, what, obj, args=None, missing=None, extra=None):
                 return "direction-slot-first-instead-of-last"
     if fam == "derivative" and what == "value" and case.cplx and contains_type(node.kids[0].ufl, "Action"):
         return "Action-Leibniz-in-complex-mode"
+    if fam == "derivative" and what == "value" and contains_type(node.kids[0].ufl, "Action") and _has_leibniz_adjoint(obj):
+        # the operand holds an Action and the result holds action(adjoint(d left), right): the Leibniz rule whose new slot comes
+        # first; through a sum or a product with a 1-form the mis-placed slot is contracted, so no transposition is visible
+        return "direction-slot-first-instead-of-last"
     if what == "coefficient-missing" and node.op == "Action" and node.kids and node.kids[0].kind == "Coefficient" and missing in node.kids[0].syn:
         return "left-Coefficient-operand"
     if what == "value" and fam == "Adjoint" and case.cplx:
@@ -842,6 +846,15 @@ def mechanism(case, node, what, obj, args=None, missing=None, extra=None):
         if nonreal(obj):
             return "complex-weight-not-conjugated"
     return sig_ops(node)
+
+
+def _has_leibniz_adjoint(o, depth=0):
+    """An Action whose left operand is an Adjoint somewhere in the base form (what the Leibniz rule for Action builds)."""
+    if tname(o) == "Action" and tname(o.ufl_operands[0]) == "Adjoint":
+        return True
+    if depth < 12 and isinstance(o, ufl.form.BaseForm) and tname(o) in ("FormSum", "Action", "Adjoint"):
+        return any(_has_leibniz_adjoint(x, depth + 1) for x in o.ufl_operands if isinstance(x, ufl.form.BaseForm))
+    return False
 
 
 def contains_type(o, name, depth=0):
